@@ -58,6 +58,10 @@ pub fn execute(plan: &Plan, ctx: &mut Ctx) {
                         3 => hx((a / b).value),
                         4 => hx((-a).value),
                         5 => hx(a.abs().value),
+                        // the sign of a zero is not a difference "as f32 values", its reciprocal is
+                        12 => hx((Quantity::dimensionless(1.0) / a.abs()).value),
+                        13 => hx((Quantity::dimensionless(1.0) / (-a)).value),
+                        14 => hx((b / (a - a)).value),
                         6 => format!("{:?}", a.partial_cmp(&b)),
                         7 => {
                             let mut x = a;
@@ -329,12 +333,22 @@ pub fn generate(prop: &str, tier: Tier, rng: &mut Rng, seed: u64, run: u64) -> P
         }
         match rng.below(if ill { 5 } else { 10 }) {
             0 | 1 => {
-                let which = rng.below(12) as i64;
+                let which = rng.below(15) as i64;
                 let (m, s) = unit_pair(rng);
                 // add / sub / cmp / += / -= / == need equal units to be well-dimensioned
                 let same = matches!(which, 0 | 1 | 6 | 7 | 8 | 11);
                 let (m2, s2) = if same && !(ill && rng.chance(0.7)) { (m, s) } else { unit_pair(rng) };
-                plan.push("QOP", &[which, fb(nz(rng)), m, s, fb(nz(rng)), m2, s2]);
+                // operands: mostly non-zero; zeros of both signs and equal operands regularly
+                let opnd = |rng: &mut Rng| -> f32 {
+                    match rng.below(8) {
+                        0 => 0.0,
+                        1 => -0.0,
+                        _ => nz(rng),
+                    }
+                };
+                let a = opnd(rng);
+                let b = if rng.chance(0.1) { a } else { opnd(rng) };
+                plan.push("QOP", &[which, fb(a), m, s, fb(b), m2, s2]);
             }
             2 => {
                 let which = rng.below(15) as i64;
